@@ -114,40 +114,46 @@ Definition results (tr : transcript) : list Z := map (label (t_result tr)) (t_po
 Definition set_at (row : list Q) (i : Z) (v : Q) : option (list Q) :=
   if (0 <=? i) && (i <? zlen row) then Some (updz row i v) else None.
 
-Fixpoint logits_fill (n : Z) (ms : list mv) (ps : list Q) (row : list Q) : option (list Q) :=
+(* t is the id table MOVES_BY_SIZE[size] (table size); encode_move size m = index_of m t 0.  The
+   table is passed in so that it is built once per transcript, as the module-level dict is. *)
+Fixpoint logits_fill (t : list mv) (ms : list mv) (ps : list Q) (row : list Q) : option (list Q) :=
   match ms with
   | [] => Some row
   | m :: ms' =>
     match ps with
     | [] => None
     | p :: ps' =>
-      match encode_move n m with
+      match index_of m t 0 with
       | None => None
       | Some i => match set_at row i p with
                   | None => None
-                  | Some row' => logits_fill n ms' ps' row'
+                  | Some row' => logits_fill t ms' ps' row'
                   end
       end
     end
   end.
 
 Definition zero_row : list Q := repeat 0%Q (Z.to_nat Consts.MAX_MOVE_ID).
+Definition logits_row_t (t : list mv) (ms : list mv) (ps : list Q) : option (list Q) :=
+  logits_fill t ms ps zero_row.
 Definition logits_row (n : Z) (ms : list mv) (ps : list Q) : option (list Q) :=
-  logits_fill n ms ps zero_row.
+  logits_row_t (table n) ms ps.
 
-Fixpoint logits_rows (n : Z) (mss : list (list mv)) (pss : list (list Q)) : option (list (list Q)) :=
+Fixpoint logits_rows_t (t : list mv) (mss : list (list mv)) (pss : list (list Q)) : option (list (list Q)) :=
   match mss with
   | [] => Some []
   | ms :: mss' =>
     match pss with
     | [] => None
     | ps :: pss' =>
-      match logits_row n ms ps, logits_rows n mss' pss' with
+      match logits_row_t t ms ps, logits_rows_t t mss' pss' with
       | Some r, Some rs => Some (r :: rs)
       | _, _ => None
       end
     end
   end.
+Definition logits_rows (n : Z) (mss : list (list mv)) (pss : list (list Q)) : option (list (list Q)) :=
+  logits_rows_t (table n) mss pss.
 
 Definition logits (tr : transcript) : option (list (list Q)) :=
   match t_positions tr with
